@@ -8,7 +8,7 @@
    What the reader yields for damaged files (missing / wrong size) is the subject
    of C10/C20 and enters here as the item list. *)
 From Coq Require Import Lia.
-From Torf Require Import Base Extracted Corrupt CorruptProofs Pipeline PipelineProofs FlowProofs PipeExplore PipeExploreProofs PipeConfigs VerifyTrueProofs VerifyFalseProofs ThreadProofs DeadlockProofs ConservationProofs ReaderDoneProofs DrainProofs CompleteProofs ReportProofs VerdictIffIntact NoCallbackProofs.
+From Torf Require Import Base Extracted Corrupt CorruptProofs Pipeline PipelineProofs FlowProofs PipeExplore PipeExploreProofs PipeConfigs VerifyTrueProofs VerifyFalseProofs ThreadProofs DeadlockProofs ConservationProofs ReaderDoneProofs DrainProofs CompleteProofs ReportProofs VerdictIffIntact NoCallbackProofs ExceptionProofs LastCallProofs LastCallVerify LastCallVerdict LastCallQuietGen NoCallbackGenProofs ScheduleIndependent.
 Open Scope Z_scope.
 
 (* a changed byte at stream position p inside file k: the content error for piece p / L names file k *)
@@ -102,6 +102,15 @@ Example C02_without_callback_example :
   s_result (auto_run 400 ok (init ok)) = Some ResTrue /\ Forall no_gap (yielded (cf_items ok)) /\
   s_result (auto_run 400 V_corrupt_nocb (init V_corrupt_nocb)) = Some (ResRaise 1000).
 Proof. split; [vm_compute; reflexivity|]. split; [repeat constructor|vm_compute; reflexivity]. Qed.
+
+(* UNBOUNDED: hence the verdict of a verification with a passive callback does not depend on the schedule -- two runs
+   over the same content, under any two schedules and clocks, that return a verdict return the same one. *)
+Theorem C02_verify_schedule_independent : forall c s1 s2 r1 r2 expd,
+  (1 <= cf_hashers c)%nat -> cf_verify c = Some expd -> cf_plan c = CbQuiet ->
+  Pipeline.zlen (yielded (cf_items c)) = Pipeline.zlen expd ->
+  reach c s1 -> reach c s2 -> s_result s1 = Some r1 -> s_result s2 = Some r2 -> verdict r1 -> verdict r2 -> r1 = r2.
+Proof. exact verify_schedule_independent. Qed.
+Print Assumptions C02_verify_schedule_independent.
 
 (* UNBOUNDED, exactness of the reports: in a verification with a passive callback (one that returns None), under every
    schedule, hasher count, reporting interval and clock,
